@@ -38,6 +38,8 @@ type Interp struct {
 	safetyN  map[string]int
 	frozenOf map[*Cell]Term
 	dbCells  map[string]*Cell
+	pureAxDone map[string]bool
+	globalInitDone map[string]bool
 	// configuration
 	maxPaths int
 }
